@@ -13,8 +13,10 @@
 (* Deliberate leniencies (accepted, never flagged): bit depths 1-3 through *)
 (* the STREAMINFO code, sample rate 0, over-long coded numbers, the        *)
 (* reserved header bit, an empty first partition (bs/2^po = order).        *)
-(* Not modelled: 33-bit side channels of 32-bit stereo (TLC integers are   *)
-(* 32-bit); such frames yield the note "unsupported:33bit".                *)
+(* 33-bit side channels of 32-bit stereo are modelled for CONSTANT and      *)
+(* VERBATIM side subframes without wasted bits (pair arithmetic, TLC        *)
+(* integers being 32-bit); predicted 33-bit subframes yield the note        *)
+(* "unsupported:33bit".                                                     *)
 (***************************************************************************)
 EXTENDS Integers, Sequences, FiniteSets, Bitwise, SequencesExt, TLC
 
@@ -172,8 +174,11 @@ Residual(b, p, bs, order) ==
                                         big == IF rp = 0 THEN FALSE ELSE (q \div 2) >= P2(31 - rp)
                                         half == IF big THEN 0 ELSE IF rp = 0 THEN q \div 2 ELSE q * P2(rp - 1) + (r \div 2)
                                         odd == (IF rp = 0 THEN q ELSE r) % 2
+                                        \* RFC 9639 9.2.7.3: the most negative 32-bit value is not a legal residual
+                                        minneg == ~big /\ odd = 1 /\ half = 2147483647
                                     IN [pos |-> a.pos + q + 1 + rp, out |-> Append(a.out, IF odd = 1 THEN (-half) - 1 ELSE half),
-                                        errs |-> IF big THEN a.errs \cup {"residual out of range"} ELSE a.errs]
+                                        errs |-> IF big THEN a.errs \cup {"residual out of range"}
+                                                 ELSE IF minneg THEN a.errs \cup {"residual is the most negative value"} ELSE a.errs]
                         r0 == FoldLeft(R2, [pos |-> acc.pos + pbits, out |-> acc.out, errs |-> acc.errs], [j \in 1..n |-> j])
                     IN [pos |-> r0.pos, out |-> r0.out, errs |-> r0.errs, params |-> Append(acc.params, <<"rice", rp>>)]
     IN IF shapeErrs # {} THEN [pos |-> p + 6, out |-> <<>>, errs |-> shapeErrs, po |-> po, method |-> method, params |-> <<>>]
@@ -228,6 +233,18 @@ Predict(warm, res, coef, shift, bps) ==
     IN FoldLeft(Step, [s |-> warm, bad |-> FALSE], res)
 
 -----------------------------------------------------------------------------
+(* 33-bit values (the side channel of 32-bit audio) as <<hi, lo>> with      *)
+(* value = hi * 65536 + lo and 0 <= lo < 65536.                             *)
+WNorm(h, l) == <<h + (l \div 65536), l % 65536>>
+WOf(x) == <<x \div 65536, x % 65536>>
+WAdd(a, c) == WNorm(a[1] + c[1], a[2] + c[2])
+WSub(a, c) == WNorm(a[1] - c[1], a[2] - c[2])
+WFits32(a) == a[1] >= -32768 /\ a[1] <= 32767
+WInt(a) == a[1] * 65536 + a[2]
+WHalf(a) == <<a[1] \div 2, ((a[1] % 2) * 65536 + a[2]) \div 2>>        \* floor(a / 2)
+W33(b, p) == <<S(b, p, 17), U(b, p + 17, 16)>>                          \* 33-bit two's complement at bit p
+
+-----------------------------------------------------------------------------
 (* Subframe at bit p with nominal depth bps0 (side channels: +1).           *)
 (* Returns [pos, s, errs, info]                                             *)
 Subframe(b, p, bs, bps0) ==
@@ -243,7 +260,12 @@ Subframe(b, p, bs, bps0) ==
         Shl1(x) == IF w <= 30 THEN x * P2(w) ELSE IF x = 0 THEN 0 ELSE (-2147483647) - 1
         Shl(s) == IF w = 0 THEN s ELSE [i \in 1..Len(s) |-> Shl1(s[i])]
         Bad(e) == [pos |-> q, s |-> [i \in 1..bs |-> 0], errs |-> hdrErrs \cup e, info |-> [type |-> "invalid", order |-> 0, wasted |-> w]]
-    IN IF w >= bps0 \/ bps0 > 32 THEN Bad(IF bps0 > 32 THEN {"unsupported:33bit"} ELSE {})
+    IN IF bps0 = 33 /\ w = 0 /\ ty \in {0, 1}
+       THEN \* a 33-bit side channel, CONSTANT or VERBATIM only: the values are returned as pairs in info.wide
+            [pos |-> q + (IF ty = 0 THEN 33 ELSE bs * 33), s |-> [i \in 1..bs |-> 0], errs |-> hdrErrs,
+             info |-> [type |-> IF ty = 0 THEN "constant" ELSE "verbatim", order |-> 0, wasted |-> 0,
+                       wide |-> [i \in 1..bs |-> W33(b, IF ty = 0 THEN q ELSE q + (i - 1) * 33)]]]
+       ELSE IF w >= bps0 \/ bps0 > 32 THEN Bad(IF bps0 > 32 THEN {"unsupported:33bit"} ELSE {})
        ELSE
        CASE ty = 0 ->
               [pos |-> q + bps, s |-> Shl([i \in 1..bs |-> S(b, q, bps)]), errs |-> hdrErrs,
@@ -256,7 +278,7 @@ Subframe(b, p, bs, bps0) ==
               IF ord > bs THEN Bad({"fixed order exceeds block size"})
               ELSE LET warm == [i \in 1..ord |-> S(b, q + (i - 1) * bps, bps)]
                        r == Residual(b, q + ord * bps, bs, ord)
-                       ok == r.errs = {} /\ Len(r.out) = bs - ord
+                       ok == r.errs \subseteq {"residual is the most negative value"} /\ Len(r.out) = bs - ord
                        pr == IF ok THEN Predict(warm, r.out, FixedC[ord + 1], 0, bps) ELSE [s |-> [i \in 1..bs |-> 0], bad |-> FALSE]
                    IN [pos |-> r.pos, s |-> Shl(pr.s), errs |-> hdrErrs \cup r.errs
                                 \cup (IF pr.bad THEN {"sample exceeds subframe depth"} ELSE {}),
@@ -273,7 +295,7 @@ Subframe(b, p, bs, bps0) ==
                        r == Residual(b, q2 + 9 + ord * prec, bs, ord)
                        perr == (IF precc = 15 THEN {"reserved coefficient precision"} ELSE {})
                                \cup (IF shift < 0 THEN {"negative lpc shift"} ELSE {})
-                       ok == r.errs = {} /\ perr = {} /\ Len(r.out) = bs - ord
+                       ok == r.errs \subseteq {"residual is the most negative value"} /\ perr = {} /\ Len(r.out) = bs - ord
                        pr == IF ok THEN Predict(warm, r.out, coef, shift, bps) ELSE [s |-> [i \in 1..bs |-> 0], bad |-> FALSE]
                    IN [pos |-> r.pos, s |-> Shl(pr.s), errs |-> hdrErrs \cup perr \cup r.errs
                                 \cup (IF pr.bad THEN {"sample exceeds subframe depth"} ELSE {}),
@@ -299,13 +321,27 @@ Frame(b, o, si) ==
            crcok == ~trunc /\ Crc16(b, o, endb) = B(b, endb) * 256 + B(b, endb + 1)
            c1 == subs.ch[1]
            c2 == subs.ch[2]
-           dec == IF subs.errs # {} THEN subs.ch
+           sideAt == IF h.chcode = 9 THEN 1 ELSE 2
+           \* the forbidden residual value does not stop the arithmetic: decoding goes on with it
+           soft == subs.errs \ {"residual is the most negative value"}
+           isWide == h.chcode \in 8..10 /\ soft = {} /\ "wide" \in DOMAIN subs.subs[sideAt]
+           \* 32-bit audio with a 33-bit side channel: pair arithmetic; a result outside 32 bits is reported and zeroed
+           wside == subs.subs[sideAt].wide
+           wL == [i \in 1..h.bs |-> CASE h.chcode = 8 -> WOf(c1[i])
+                                      [] h.chcode = 9 -> WAdd(wside[i], WOf(c2[i]))
+                                      [] OTHER -> WAdd(WAdd(WOf(c1[i]), WHalf(wside[i])), <<0, wside[i][2] % 2>>)]
+           wR == [i \in 1..h.bs |-> IF h.chcode = 9 THEN WOf(c2[i]) ELSE WSub(wL[i], wside[i])]
+           wBad == \E i \in 1..h.bs : ~WFits32(wL[i]) \/ ~WFits32(wR[i])
+           dec == IF soft # {} THEN subs.ch
+                  ELSE IF isWide
+                  THEN << [i \in 1..h.bs |-> IF WFits32(wL[i]) THEN WInt(wL[i]) ELSE 0],
+                          [i \in 1..h.bs |-> IF WFits32(wR[i]) THEN WInt(wR[i]) ELSE 0] >>
                   ELSE CASE h.chcode = 8 -> <<c1, [i \in 1..h.bs |-> c1[i] - c2[i]]>>
                          [] h.chcode = 9 -> <<[i \in 1..h.bs |-> c1[i] + c2[i]], c2>>
                          [] h.chcode = 10 -> LET L == [i \in 1..h.bs |-> c1[i] + (c2[i] \div 2) + (c2[i] % 2)]
                                              IN <<L, [i \in 1..h.bs |-> L[i] - c2[i]]>>
                          [] OTHER -> subs.ch
-           rangeErr == IF subs.errs = {} /\ \E c \in 1..Len(dec) : \E i \in 1..h.bs : ~InRange(dec[c][i], h.bps)
+           rangeErr == IF soft = {} /\ ((isWide /\ wBad) \/ \E c \in 1..Len(dec) : \E i \in 1..h.bs : ~InRange(dec[c][i], h.bps))
                        THEN {"decoded sample exceeds bit depth"} ELSE {}
        IN [errs |-> subs.errs \cup rangeErr \cup (IF trunc THEN {"truncated"} ELSE IF ~crcok THEN {"crc16"} ELSE {})
                     \cup (IF ~padOk THEN {"nonzero padding"} ELSE {}),
@@ -325,7 +361,7 @@ NoSI == [minbs |-> 0, maxbs |-> 0, minfs |-> 0, maxfs |-> 0, rate |-> -1, ch |->
          totalHi |-> 0, totalLo |-> 0, md5 |-> [k \in 1..16 |-> 0]]
 \* errors a decoder is not required to report (see MustRejectErrorsOf)
 Lenient == {"partition order does not divide the block", "nonzero padding", "subframe padding bit set",
-            "sample exceeds subframe depth", "decoded sample exceeds bit depth"}
+            "sample exceeds subframe depth", "decoded sample exceeds bit depth", "residual is the most negative value"}
 ParseStreamT(b, tolerated) ==
     LET m == Meta(b)
         si == IF m.blocks # <<>> /\ m.blocks[1].type = 0 /\ m.blocks[1].len = 34 THEN StreamInfo(b, m.blocks[1].off) ELSE NoSI
